@@ -66,7 +66,7 @@ def run_all(names, tier):
                 for l in vio[:2]:
                     print('   ', l)
         finally:
-            sh('git -C /repo checkout -- .')
+            sh('git -C /repo checkout -- . && git -C /repo clean -fdq')   # patches may add files
         json.dump(res, open(d + '/result.json', 'w'), indent=1)
 
 
